@@ -292,6 +292,13 @@ func tagStr(tags map[string]bool) string {
 var nextID int
 
 func runReader(fn string, text []byte, extra ...string) {
+	runReaderInit(fn, text, nil, nil, extra...)
+}
+
+// runReaderInit: a Reader that is Reset with tool-supplied labels (initConfig, alternating
+// keys and values) — after first having read `pre` to the end when pre != nil (a REUSED reader:
+// stale configuration slots, unit metadata carried over).
+func runReaderInit(fn string, text []byte, init []string, pre []byte, extra ...string) {
 	id := nextID
 	nextID++
 	if !shardMine(id) {
@@ -299,13 +306,35 @@ func runReader(fn string, text []byte, extra ...string) {
 	}
 	t := newTables()
 	t.add(text)
+	t.add(pre)
 	tags := textTags(text)
 	for _, e := range extra {
 		tags[e] = true
 	}
-	caseLine := fmt.Sprintf("case %d kind=r fn=%s text=%s %s tag=%s", id, hx.HexS(fn), hx.Hex(text), t, tagStr(tags))
+	if len(init) > 0 {
+		tags["labels"] = true
+	}
+	hasPre := 0
+	if pre != nil {
+		tags["reused"] = true
+		hasPre = 1
+	}
+	caseLine := fmt.Sprintf("case %d kind=r fn=%s text=%s init=%s haspre=%d pre=%s %s tag=%s", id, hx.HexS(fn), hx.Hex(text),
+		hx.HexListS(init), hasPre, hx.Hex(pre), t, tagStr(tags))
 	guarded(id, caseLine, func(out *strings.Builder) {
-		r := benchfmt.NewReader(bytes.NewReader(text), fn)
+		var r *benchfmt.Reader
+		switch {
+		case pre != nil:
+			r = benchfmt.NewReader(bytes.NewReader(pre), "pre")
+			for r.Scan() {
+			}
+			r.Reset(bytes.NewReader(text), fn, init...)
+		case len(init) > 0:
+			r = new(benchfmt.Reader)
+			r.Reset(bytes.NewReader(text), fn, init...)
+		default:
+			r = benchfmt.NewReader(bytes.NewReader(text), fn)
+		}
 		n, cl, _ := consume(out, id, r)
 		if cl == "ok" {
 			cl = cloneStress(text)
@@ -523,5 +552,18 @@ func replay(l string) {
 		runFiles(paths, get("stdin") == "1", get("labels") == "1", fs, hx.UnHex(get("in")))
 		return
 	}
-	runReader(string(hx.UnHex(get("fn"))), hx.UnHex(get("text")))
+	var init []string
+	if v := get("init"); v != "" && v != "-" {
+		for _, p := range list("init") {
+			init = append(init, string(p))
+		}
+	}
+	var pre []byte
+	if get("haspre") == "1" {
+		pre = hx.UnHex(get("pre"))
+		if pre == nil {
+			pre = []byte{}
+		}
+	}
+	runReaderInit(string(hx.UnHex(get("fn"))), hx.UnHex(get("text")), init, pre)
 }
